@@ -387,6 +387,23 @@ def run_shuffled(case):
       got = freeze(restarted.sample())
       require_same(got, reference[start + k], 'streaming_restart',
                    f'start_round_num={start}, sample #{k} (round {start + k})')
+    if case.get('shared_fd'):
+      # Both client streams come from ONE dataset object and are advanced in
+      # turn (an evaluation sampler next to the training sampler, a restarted
+      # sampler next to the old one): each is still its own seeded stream.
+      fd = be.open()
+      a = client_samplers.UniformShuffledClientSampler(
+          fd.shuffled_clients(case['buffer'], case['stream_seed']), cohort)
+      b = client_samplers.UniformShuffledClientSampler(
+          fd.shuffled_clients(case['buffer'], case['stream_seed']), cohort,
+          start_round_num=start)
+      for r in range(start + rounds):
+        require_same(freeze(a.sample()), reference[r], 'streaming_two_streams_of_one_dataset',
+                     f'stream from round 0, round {r}')
+        if r >= start:
+          require_same(freeze(b.sample()), reference[r],
+                       'streaming_two_streams_of_one_dataset',
+                       f'stream seated at round {start}, round {r}')
 
 
 def shuffled_labels(case):
@@ -515,7 +532,8 @@ def shuffled_strategy(draw, tier):
           'cohort': draw(cohort_strategy(n)),
           'start': draw(st.one_of(st.integers(0, 6 if tier == 'quick' else 12),
                                   st.integers(1, 3))),
-          'rounds': draw(st.integers(1, 4))}
+          'rounds': draw(st.integers(1, 4)),
+          'shared_fd': draw(st.booleans())}
 
 
 # ------------------------------------------------- restart in a new process
